@@ -32,6 +32,17 @@ func init() { runners["C14"] = runC14 }
 // "//" inside a string is not a comment), line comments and semicolons are dropped.
 func jsTokens(s string) []string {
 	var out []string
+	for _, t := range jsTokensKeepSemi(s) {
+		if t != ";" {
+			out = append(out, t)
+		}
+	}
+	return out
+}
+
+// jsTokensKeepSemi: the same, semicolons kept as tokens
+func jsTokensKeepSemi(s string) []string {
+	var out []string
 	i := 0
 	isId := func(c byte) bool {
 		return c == '_' || c == '$' || c >= 'a' && c <= 'z' || c >= 'A' && c <= 'Z' || c >= '0' && c <= '9' || c >= 0x80
@@ -39,7 +50,7 @@ func jsTokens(s string) []string {
 	for i < len(s) {
 		c := s[i]
 		switch {
-		case c == ' ' || c == '\t' || c == '\n' || c == '\r' || c == ';':
+		case c == ' ' || c == '\t' || c == '\n' || c == '\r':
 			i++
 		case c == '"' || c == '\'':
 			j := i + 1
@@ -71,6 +82,43 @@ func jsTokens(s string) []string {
 		}
 	}
 	return out
+}
+
+// canonLocals renames the block-scoped locals (const / let / var) of a method to $v1, $v2, … in
+// the order they are declared: the name of a generated local is no part of what C14 states.
+// Property names (after a dot) and object keys (before a colon inside a literal) are left alone.
+func canonLocals(toks []string) []string {
+	names := map[string]string{}
+	out := append([]string(nil), toks...)
+	isIdent := func(t string) bool {
+		return t != "" && (t[0] == '_' || t[0] == '$' || t[0] >= 'a' && t[0] <= 'z' || t[0] >= 'A' && t[0] <= 'Z')
+	}
+	for i, t := range toks {
+		if (t == "const" || t == "let" || t == "var") && i+1 < len(toks) && isIdent(toks[i+1]) {
+			if _, ok := names[toks[i+1]]; !ok {
+				names[toks[i+1]] = fmt.Sprintf("$v%d", len(names)+1)
+			}
+		}
+	}
+	for i, t := range toks {
+		c, ok := names[t]
+		if !ok {
+			continue
+		}
+		if i > 0 && toks[i-1] == "." {
+			continue
+		}
+		declared := i > 0 && (toks[i-1] == "const" || toks[i-1] == "let" || toks[i-1] == "var")
+		if !declared && i+1 < len(toks) && toks[i+1] == ":" && i > 0 && (toks[i-1] == "{" || toks[i-1] == ",") {
+			continue
+		}
+		out[i] = c
+	}
+	return out
+}
+
+func sameMethodTokens(a, b string) bool {
+	return strings.Join(canonLocals(jsTokens(a)), " ") == strings.Join(canonLocals(jsTokens(b)), " ")
 }
 
 func sameTokens(a, b string) bool { return strings.Join(jsTokens(a), " ") == strings.Join(jsTokens(b), " ") }
@@ -258,7 +306,8 @@ func paramNames(method string) (names []string, open, close int, err error) {
 	return nil, 0, 0, fmt.Errorf("unbalanced parameter list")
 }
 
-var repAnnotRe = regexp.MustCompile(`const rep:AxiosResponse<.*> = `)
+// the annotated local holding the response (whatever its name and the spacing)
+var repAnnotRe = regexp.MustCompile(`(const|let|var)\s+(\w+)\s*:\s*AxiosResponse<.*>\s*=\s*`)
 
 // toJS strips the type annotations of one generated method.
 func toJS(method string) (string, []string, error) {
@@ -267,7 +316,7 @@ func toJS(method string) (string, []string, error) {
 		return "", nil, err
 	}
 	js := method[:open+1] + strings.Join(names, ", ") + method[close:]
-	return repAnnotRe.ReplaceAllString(js, "const rep = "), names, nil
+	return repAnnotRe.ReplaceAllString(js, "$1 $2 = "), names, nil
 }
 
 const nodeRunner = `
@@ -838,7 +887,7 @@ func runC14(r *rep.Report, thorough bool) error {
 			if parts.names[i] != e.Name {
 				r.Fail(rep.Failure{Signature: "c14:method-name", What: "method " + parts.names[i] + " for handler " + e.Name, Input: in})
 			}
-			if !sameTokens(parts.methods[i], m["text"].(string)) {
+			if !sameMethodTokens(parts.methods[i], m["text"].(string)) {
 				r.Disagree(rep.Disagreement{Tie: "c14.method-text", Input: map[string]any{"case": t.Case.ID, "endpoint": e}, Model: m["text"], Impl: parts.methods[i]})
 			}
 			code, names, err := toJS(parts.methods[i])
